@@ -421,13 +421,15 @@ pub fn check(a: &CheckArgs) -> i32 {
     let mut founds: Vec<Found> = sh.found.values().cloned().collect();
     founds.sort_by_key(|f| f.run_index);
     let max_minimise = 12;
+    // overall triage budget: afterwards representatives are reported as found (not minimised)
+    let triage_deadline = Instant::now() + a.minimise_budget * 4;
     for (n, f) in founds.iter().enumerate() {
         if known_sigs.contains(&f.violation.signature()) {
             *suppressed.entry(f.violation.signature()).or_insert(0) += f.count;
             continue;
         }
         let spin = f.violation.detail.ends_with("uncontrolled_spin");
-        let (case, v) = if n < max_minimise && !spin {
+        let (case, v) = if n < max_minimise && !spin && Instant::now() < triage_deadline {
             let mut m = Minimiser::new(&base, "minimise", &f.violation, a.minimise_budget);
             let (c, v) = m.run(&f.case, &f.violation);
             (c, v)
